@@ -9,6 +9,8 @@ NOTE_COMMON = ("Trusted: rustc MIR of the pinned nightly for both arithmetic pro
 
 CLAIMS = {
  "C02": "Trace obligations over the generic MIR of try_new / next / handle_io / the provided write_input and the default-entry closure: exactly one driver call per constructor and per row, of the right kind, with the very input slice of the row; no other call site in the crate (scan of all MIR call sites). Holds for every driver type because the trait methods are uninterpreted.",
+ "C03": "Verdict kernels (ExpectedValue::check, OutputValue::check, OutputResultEntry::check / is_checked, failing_outputs filter) for all tags and 64-bit payloads; attribution at closure level and for extract_output_values as a whole (<= 2 entries); into_data_row zip (<= 3 entries); build_output_indices first-match positions for (2,2), (2,1), (1,2) expected/answer entries.",
+ "C14": "Virtual arm of the extraction closure (one evaluation against the closure's context, value or Runtime error), swap bracket on every path, set_outputs before extraction, set_outputs rebuilds the map from exactly the answer (<= 2 entries, Z/X included), virtual signals 64 bits wide and unmasked.",
  "C04": "EvalContext::get (variables first), placement of set_outputs (only after a successful output-reading call, with that call's answer, before extraction), construction answer installed, row evaluated before its IO, swap_vars restored on every path, Variable arm Ok iff Value.",
  "C05": "Bounded model checking of the real get_row / expand_x / expand_c / generate_* code through a synthetic MIR harness: one source row of 3 columns (4 in the thorough tier) with symbolic entry kinds, values and widths, all 48 shapes per layout, compared by the solver with the expansion the property prescribes (order, clock triples, checked flag, expected X). Rows wider than the bound and interaction with loops are outside.",
  "C07": "Exhaustive symbolic execution of the two per-signal masking closures (with the bit_mask helper inlined) and the virtual-signal constructor for all widths 1..=64 and all 64-bit values in the dev and release arithmetic profiles.",
@@ -18,12 +20,10 @@ CLAIMS = {
 }
 NA = {
  "C01": "not claimed yet in this session (planned: per-transition obligations on StmtIterator::next_with_context)",
- "C03": "not claimed yet in this session (planned: verdict kernels and attribution, shared with C13)",
  "C06": "not claimed yet in this session (planned: build_indices segments and entry closures)",
  "C09": "not claimed yet in this session (planned: panic-site audit of the parser modules)",
  "C11": "not claimed: the verdict depends on discrete structure only; see DESIGN.md section 4",
  "C12": "not claimed yet in this session (planned: terminator / arity / literal obligations on the parser functions)",
- "C14": "not claimed yet in this session (planned: virtual arm, swap bracket, declare scoping)",
  "C15": "not claimed yet in this session (planned: sortedness of Parser::finish, static gate)",
  "C16": "not claimed yet in this session (planned: load_test*, extraction helpers, dig.rs panic sites)",
  "C17": "not claimed yet in this session (planned: func_random range and draw count, reset_random_seed)",
